@@ -379,7 +379,7 @@ def attach_file(
         attach_file as a cleanup is recommended because it guarantees a
         sequence for when the attach_file call is made::
 
-            detailed.addCleanup(attach_file, 'foo.txt', detailed)
+            detailed.addCleanup(attach_file, detailed, 'foo.txt')
     """
     if name is None:
         name = os.path.basename(path)
